@@ -252,6 +252,9 @@ func pkg(s *scope, args []pyObject) pyObject {
 
 		// Merge in the existing config for dictionaries
 		if overrides, ok := v.(pyDict); ok {
+			if frozen, ok := configVal.(pyFrozenDict); ok {
+				configVal = frozen.pyDict // config set by a subinclude is frozen; it's copied below
+			}
 			if pluginConfig, ok := configVal.(pyDict); ok {
 				newPluginConfig := pluginConfig.Copy()
 				for pluginKey, override := range overrides {
